@@ -15,7 +15,7 @@ import common as C
 import fullrun as FR
 
 STATIC = ["Model/Sev.vo"]
-EXTRA_PROPS = ["C05b"]
+EXTRA_PROPS = ["C05b", "C05c"]
 
 
 def run(chk):
